@@ -30,6 +30,13 @@ Theorem C15_user_rules : forall c es e, file_users c = es ++ [e] ->
 Proof. intros c es e H. unfold build. rewrite H. apply load_enh_last. Qed.
 Print Assumptions C15_user_rules.
 
+(* for EVERY sequence of publishes of one connection, with or without topic, with any aliases: whatever is
+   routed is allowed by the write ACL - an alias never carries a publish past the ACL *)
+Theorem C15_alias_cannot_bypass_acl : forall allowed ps tp,
+  In (ARouted tp) (alias_run allowed [] ps) -> allowed tp = true.
+Proof. intros allowed ps tp. apply alias_run_ok. intros a t H. discriminate. Qed.
+Print Assumptions C15_alias_cannot_bypass_acl.
+
 Example C15_nonvacuous :
   let c := mkCfg [([117], [1])] [mkEnh [101] [2] (mkACL (Some [114;47]) None)] [] (mkACL None (Some [119;47])) in
   acl (build c) [101] [114;47;120] false = Allow /\ acl (build c) [101] [119;47;120] true = Allow /\
